@@ -284,8 +284,12 @@ func (o *FilterOptimizer) optimizeLtLteExpr(e *BinaryOpExpr) *ScanType {
 	// return RANGE scan with end
 	if field == KeyKW && key != nil {
 		if string(key) == "" {
-			// key < '' or key <= '' means no keys should be scan
-			return &ScanType{EMPTY, nil}
+			if e.Op == Lt || e.Op == Gt {
+				// key < '' ('' > key) means no keys should be scan
+				return &ScanType{EMPTY, nil}
+			}
+			// key <= '' ('' >= key) matches the empty key only
+			return &ScanType{MGET, [][]byte{key}}
 		}
 		return &ScanType{RANGE, [][]byte{nil, key}}
 	}
